@@ -28,7 +28,7 @@ Fresh(e) ==
      fs |-> [ents |-> e.snap.ents, inos |-> e.snap.inos],
      fds |-> <<>>, dirty |-> {}, syncfail |-> {}, pubs |-> <<>>, supplied |-> {}, planted |-> {},
      cur |-> <<>>, steps |-> <<>>, listed |-> <<>>, tlisted |-> <<>>, created |-> <<>>, opfds |-> <<>>, opens |-> <<>>,
-     faulted |-> <<>>, faultcall |-> <<>>, unlinkfailed |-> <<>>, prune |-> <<>>, lastset |-> <<>>, lastok |-> <<>>, maybeset |-> <<>>, lastret |-> <<>>,
+     faulted |-> <<>>, faultcall |-> <<>>, unlinkfailed |-> <<>>, prune |-> <<>>, lastset |-> <<>>, lastok |-> <<>>, maybeset |-> <<>>, lastret |-> <<>>, absmap |-> <<>>, atcall |-> <<>>, pruned |-> <<>>,
      viol |-> {}, fsmis |-> {}, nsys |-> 0]
 
 InitSt == Fresh([job |-> "", run |-> 0, gran |-> 0, atime |-> "relatime", snap |-> EmptyFS])
@@ -89,6 +89,12 @@ SysStep(s, e) ==
                          THEN Put(s.unlinkfailed, p, Get(s.unlinkfailed, p, {}) \cup {tgt}) ELSE s.unlinkfailed
         prune2 == IF InLib(e) /\ e.call = "open" /\ e.res = "ok" /\ Has(e, "isdir") /\ IsCacheDir(s.cfg, DirId(e.path))
                   THEN Put(s.prune, p, [d |-> DirId(e.path), fs |-> s.fs, fd |-> e.fd]) ELSE s.prune
+        pruned2 == IF InLib(e) /\ e.call = "open" /\ e.res = "ok" /\ Has(e, "isdir") /\ IsCacheDir(s.cfg, DirId(e.path))
+                   THEN Put(s.pruned, p, TRUE) ELSE s.pruned
+        \* an eviction (or any removal of a key-named entry by the library) takes the key out of the abstract map
+        absmap2 == IF InLib(e) /\ e.call = "unlink" /\ e.res = "ok" /\ ~Outside(e.path) /\ IsWCacheDir(s.cfg, DirOf(e.path))
+                      /\ e.path.n \in DOMAIN s.absmap
+                   THEN Del(s.absmap, e.path.n) ELSE s.absmap
         supplied2 == s.supplied \cup
             (IF e.ph = "world" /\ e.call \in {"write"} /\ tgt \in DOMAIN fs2.inos /\ Has(fs2.inos[tgt].c, "key")
              THEN {<<fs2.inos[tgt].c.key, fs2.inos[tgt].c.val>>} ELSE {})
@@ -96,7 +102,7 @@ SysStep(s, e) ==
                  !.pubs = NewPubs(s.cfg, fs2, s.pubs), !.created = created2, !.planted = planted2,
                  !.steps = steps2, !.listed = listed2, !.tlisted = tlisted2, !.opfds = opfds2, !.opens = opens2,
                  !.faulted = faulted2, !.faultcall = faultcall2, !.unlinkfailed = unlinkfailed2, !.supplied = supplied2,
-                 !.prune = prune2, !.nsys = @ + 1,
+                 !.prune = prune2, !.pruned = pruned2, !.absmap = absmap2, !.nsys = @ + 1,
                  !.fsmis = @ \cup (IF predok THEN {} ELSE {<<e.seq, "pred">>}) \cup (IF effok THEN {} ELSE {<<e.seq, "eff">>})]
 
 ExtStep(s, e) ==    \* crash / age / adversary / mark: trust the snapshot
@@ -110,13 +116,23 @@ CallStep(s, e) ==
     LET p == e.p IN
     [s EXCEPT !.cur = Put(@, p, e), !.steps = Put(@, p, 0), !.listed = Put(@, p, 0), !.tlisted = Put(@, p, {}),
               !.created = Put(@, p, {}), !.opfds = Put(@, p, {}), !.opens = Put(@, p, <<>>),
-              !.unlinkfailed = Put(@, p, {}),
+              !.unlinkfailed = Put(@, p, {}), !.atcall = Put(@, p, s.fs), !.pruned = Put(@, p, FALSE),
               !.supplied = @ \cup (IF Has(e, "val") /\ Has(e, "key") THEN {<<e.key, e.val>>} ELSE {})]
 
 GoneStep(s, e) == [s EXCEPT !.fds = Del(@, e.p)]
 
+AbsAfter(s, e) ==
+    \* the abstract map after a returned operation: latest set, else first put since the key was last absent; minus evicted keys
+    LET present == PresentKeys(s.cfg, s.fs)
+        m0 == [k \in (DOMAIN s.absmap) \cap present |-> s.absmap[k]]
+        c == IF e.p \in DOMAIN s.cur THEN s.cur[e.p] ELSE <<>>
+    IN IF ~e.ok \/ ~Has(c, "key") \/ ~Has(c, "val") \/ c.key \notin present THEN m0
+       ELSE IF e.api \in {"set", "set_tf"} \/ (e.api = "gou" /\ Has(c, "judge") /\ c.judge = "replace") THEN Put(m0, c.key, c.val)
+       ELSE IF e.api \in {"put", "put_tf", "ensure"} /\ c.key \notin DOMAIN m0 THEN Put(m0, c.key, c.val)
+       ELSE m0
+
 RetStep(s, e) ==
-    LET s1 == [s EXCEPT !.lastok = Put(@, e.p, e.ok), !.lastret = Put(@, e.p, e)] IN
+    LET s1 == [s EXCEPT !.lastok = Put(@, e.p, e.ok), !.lastret = Put(@, e.p, e), !.absmap = AbsAfter(s, e)] IN
     IF e.p \in DOMAIN s.cur /\ Has(s.cur[e.p], "val") /\ Has(s.cur[e.p], "key") THEN
         LET k == s.cur[e.p].key v == s.cur[e.p].val
             isset == e.api \in {"set", "set_tf"} \/ (e.api = "gou" /\ Has(s.cur[e.p], "judge") /\ s.cur[e.p].judge = "replace")
@@ -149,7 +165,8 @@ Violations(s, e, s2) ==
     IN
     (IF stateChanged THEN Mon("DirValid", DirValid(cfg, s2)) \cup Mon("DebrisConfined", DebrisConfined(cfg, s2)) ELSE {})
     \cup (IF e.e = "obs" THEN Mon("HandleContentOK", HandleContentOK(s, e)) \cup Mon("HandleModeOK", HandleModeOK(s, e))
-                               \cup Mon("ReadsLastSet", ReadsLastSet(s, e)) \cup Mon("StackOK", StackOK(cfg, s, e)) ELSE {})
+                               \cup Mon("ReadsLastSet", ReadsLastSet(s, e)) \cup Mon("StackOK", StackOK(cfg, s, e))
+                               \cup Mon("SeqMapOK", SeqMapOK(cfg, s, e)) ELSE {})
     \cup (IF isSys \/ e.e \in {"crash", "age", "advdel"} THEN
               Mon("Immutable", ImmutableStep(s, e, s2)) \cup Mon("ROUntouched", ROUntouched(cfg, s, e, s2))
               \cup Mon("DotFilesUntouched", DotFilesUntouched(cfg, s, e, s2))
@@ -160,13 +177,15 @@ Violations(s, e, s2) ==
               \cup Mon("NoLocks", NoLocks(cfg, e)) \cup Mon("Confined", Confined(cfg, s, e))
               \cup Mon("ConfinedStrict", ConfinedStrict(cfg, s, e)) \cup Mon("RejectedNoEffect", RejectedNoEffect(cfg, s, e))
               \cup Mon("RemovalOK", RemovalOK(cfg, s, e)) \cup Mon("YoungTempKept", YoungTempKept(cfg, s, e, s2))
-              \cup Mon("Mode0444", Mode0444(cfg, s, e))
+              \cup Mon("Mode0444", Mode0444(cfg, s, e)) \cup Mon("PutNeverReplaces", PutNeverReplaces(cfg, s, e, s2))
               \cup Mon("Bounded", Bounded(s2, e.p)) \cup Mon("FdBound", FdBound(cfg, s2, e.p))
           ELSE {})
     \cup (IF isRet THEN
               Mon("NoErr", NoErr(e)) \cup Mon("RejectedOK", RejectedOK(s, e)) \cup Mon("StaleGone", StaleGone(cfg, s, e))
               \cup Mon("FaultOK", FaultOK(cfg, s, e)) \cup Mon("FollowUpOK", FollowUpOK(s, e)) \cup Mon("NoLeak", NoLeak(cfg, s, e))
               \cup Mon("NoResidue", NoResidue(s, e)) \cup Mon("TwoOpensPerDir", TwoOpensPerDir(s, e))
+              \cup Mon("OneCopy", OneCopy(cfg, s)) \cup Mon("UnexplainedLoss", UnexplainedLoss(cfg, s, e, s2))
+              \cup Mon("SrcConsumed", SrcConsumed(e)) \cup Mon("ReadMarks", ReadMarks(cfg, s, e)) \cup Mon("FreshOnWrite", FreshOnWrite(cfg, s, e))
           ELSE {})
     \cup (IF isSys /\ e.call = "close" /\ e.p \in DOMAIN s.prune /\ s.prune[e.p].fd = e.fd /\ InLib(e)
              /\ Has(e, "fdpath") /\ DirId(e.fdpath) = s.prune[e.p].d
